@@ -152,6 +152,10 @@ func createASTTypeExpr(pkg string, t types.Type, varPool *VarPool, imports map[s
 		if err != nil {
 			return nil, fmt.Errorf("chan element: %w", err)
 		}
+		// chan (<-chan T) needs its parentheses: without them the arrow binds to the outer chan.
+		if elem, ok := expr.(*ast.ChanType); ok && elem.Dir == ast.RECV && typ.Dir() != types.RecvOnly {
+			expr = &ast.ParenExpr{X: expr}
+		}
 
 		return &ast.ChanType{
 			Dir:   dir,
